@@ -1,5 +1,6 @@
 import Marwood.Lemmas.Digits
 import Marwood.Lemmas.Parse
+import Marwood.Lemmas.RadixLex
 /-!
 # C16 — number->string and string->number are mutually inverse
 
@@ -277,6 +278,131 @@ theorem literal_denotes (fo : FloatOps) (text : Text) (t0 t1 : Token) (rest : Li
     | err e => cases e; rfl
     | panic m => rfl
 
+/-- T16.3, from the text: the source text `#b… #o… #d… #x…` whose body, standing alone, scans as one
+    token of type `Number` or `Symbol`, is read by `parse_text` as the prefix token plus that token, and
+    the datum is what `parse_with_exactness` — the function behind `string->number` — makes of the body
+    in that radix (a body that is not a number becomes a symbol, where `string->number` answers `#f`) -/
+theorem parseText_prefixed (fo : FloatOps) {r : Nat} (hr : Radix r) {sp : Text}
+    (hs : ScansAs sp .number [] ∨ ScansAs sp .symbol []) :
+    (parseText fo ('#' :: radixLetter r :: sp) =
+        match parseWithExactness fo sp .unspecified r with
+        | .ok n => .ok (.num n, none)
+        | .err () => .ok (.sym sp, none)
+        | .panic m => .panic m) ∧
+    (stringToNumberProc fo [.str sp, .num (.fix r)] =
+        match parseWithExactness fo sp .unspecified r with
+        | .ok n => .ok (.num n)
+        | .err () => .ok (.bool false)
+        | .panic m => .panic m) := by
+  obtain ⟨ty, hty, hsc⟩ : ∃ ty, (ty = .number ∨ ty = .symbol) ∧ ScansAs sp ty [] := by
+    rcases hs with h | h
+    · exact ⟨_, .inl rfl, h⟩
+    · exact ⟨_, .inr rfl, h⟩
+  have hscan := scan_prefixed hr hsc
+  have hb : byteLen ['#', radixLetter r] = 2 := by
+    rcases hr with rfl | rfl | rfl | rfl <;> decide
+  have h0 : tokSpan ('#' :: radixLetter r :: sp) ⟨0, 2, .numberPrefix⟩ = .ok ['#', radixLetter r] := by
+    have := tokSpan_at [] ['#', radixLetter r] sp .numberPrefix
+    simpa [hb] using this
+  have h1 : tokSpan ('#' :: radixLetter r :: sp) ⟨2, 2 + byteLen sp, ty⟩ = .ok sp := by
+    have := tokSpan_at ['#', radixLetter r] sp [] ty
+    simpa [hb] using this
+  obtain ⟨hp, hq⟩ := literal_denotes fo ('#' :: radixLetter r :: sp) ⟨0, 2, .numberPrefix⟩
+    ⟨2, 2 + byteLen sp, ty⟩ [] ['#', radixLetter r] sp r rfl h0
+    (prefixStep_radixLetter hr .unspecified 10) hty h1 hr.bounds
+  refine ⟨?_, hq⟩
+  unfold parseText
+  rw [hscan]
+  simp only [hp]
+  cases parseWithExactness fo sp .unspecified r with
+  | ok n => rfl
+  | err e => cases e; rfl
+  | panic m => rfl
+
+/-- what `number->string` prints for a well-formed exact number in radix 2, 8, 10, 16 is, before the
+    end of the text, a space or a closing parenthesis, one token of type `Number` (sign or decimal
+    digit first) or `Symbol` (hex digit `a`–`f` first) -/
+theorem exactDigits_one_token (r : Nat) (hr : Radix r) (z : Num) (hwf : z.WF = true)
+    (hex : isExact z = true) (rest : Text) (hd : Delim rest) :
+    ScansAs (exactDigits r z) .number rest ∨ ScansAs (exactDigits r z) .symbol rest := by
+  have h2 : 2 ≤ r := hr.bounds.1
+  have h16 : r ≤ 16 := by rcases hr with rfl | rfl | rfl | rfl <;> omega
+  apply scansAs_numTokShape _ rest hd
+  cases z with
+  | fix n => exact intDigits_shape h2 h16 n
+  | big n => exact intDigits_shape h2 h16 n
+  | rat n d =>
+    simp only [Num.WF, Bool.and_eq_true, decide_eq_true_eq, beq_iff_eq] at hwf
+    exact ratDigits_shape h2 h16 n d hwf.1.1.1
+  | flo f => cases hex
+
+/-- T16.3 for exact numbers, closed: for every well-formed exact `z` and radix 2, 8, 10, 16 the
+    printed form, prefixed `#b #o #d #x` and read as source text, denotes exactly the number
+    `string->number` returns for the printed form in that radix — `normalize z`, an exact number of
+    the same value (T16.1) -/
+theorem literal_exact (fo : FloatOps) (z : Num) (hwf : z.WF = true) (hex : isExact z = true)
+    (r : Nat) (hr : Radix r) :
+    parseText fo ('#' :: radixLetter r :: numberToString fo r z) = .ok (.num (normalize z), none) ∧
+    stringToNumberProc fo [.str (numberToString fo r z), .num (.fix r)] = .ok (.num (normalize z)) ∧
+    isExact (normalize z) = true ∧ SameValue (normalize z) z := by
+  obtain ⟨hrt, hnorm⟩ := exact_roundtrip fo z hwf hex r hr
+  have hpw : parseWithExactness fo (numberToString fo r z) .unspecified r = .ok (normalize z) := by
+    unfold parseWithExactness
+    rw [hrt]
+  have hs := exactDigits_one_token r hr z hwf hex [] trivial
+  rw [← numberToString_exact fo r hr z hex] at hs
+  obtain ⟨h1, h2⟩ := parseText_prefixed fo hr hs
+  rw [hpw] at h1 h2
+  exact ⟨h1, h2, hnorm⟩
+
+/-- T16.3 inside a program: the prefixed printed form of an exact number followed by the end of the
+    text, a space or `)` and any further text `rest` with tokens `ts0`: the scanner yields the prefix
+    token, one body token and `ts0`, and the datum parser returns `normalize z` and leaves `ts0` -/
+theorem literal_exact_in_context (fo : FloatOps) (z : Num) (hwf : z.WF = true) (hex : isExact z = true)
+    (r : Nat) (hr : Radix r) (rest : Text) (hd : Delim rest) (ts0 : List Token)
+    (hrest : ScanTo (2 + byteLen (numberToString fo r z)) rest ts0) :
+    ∃ t0 t1, scan ('#' :: radixLetter r :: (numberToString fo r z ++ rest)) = .ok (t0 :: t1 :: ts0) ∧
+      parseTokens fo ('#' :: radixLetter r :: (numberToString fo r z ++ rest)) (t0 :: t1 :: ts0) =
+        .ok (.num (normalize z), ts0) := by
+  obtain ⟨hrt, _⟩ := exact_roundtrip fo z hwf hex r hr
+  have hpw : parseWithExactness fo (numberToString fo r z) .unspecified r = .ok (normalize z) := by
+    unfold parseWithExactness
+    rw [hrt]
+  have hs := exactDigits_one_token r hr z hwf hex rest hd
+  rw [← numberToString_exact fo r hr z hex] at hs
+  generalize numberToString fo r z = sp at hs hpw hrest ⊢
+  obtain ⟨ty, hty, hsc⟩ : ∃ ty, (ty = .number ∨ ty = .symbol) ∧ ScansAs sp ty rest := by
+    rcases hs with h | h
+    · exact ⟨_, .inl rfl, h⟩
+    · exact ⟨_, .inr rfl, h⟩
+  have hb : byteLen ['#', radixLetter r] = 2 := by
+    rcases hr with rfl | rfl | rfl | rfl <;> decide
+  have h0 : tokSpan ('#' :: radixLetter r :: (sp ++ rest)) ⟨0, 2, .numberPrefix⟩ =
+      .ok ['#', radixLetter r] := by
+    have := tokSpan_at [] ['#', radixLetter r] (sp ++ rest) .numberPrefix
+    simpa [hb] using this
+  have h1 : tokSpan ('#' :: radixLetter r :: (sp ++ rest)) ⟨2, 2 + byteLen sp, ty⟩ = .ok sp := by
+    have := tokSpan_at ['#', radixLetter r] sp rest ty
+    simpa [hb] using this
+  refine ⟨_, _, scan_prefixed_then hr hsc hrest, ?_⟩
+  rw [(literal_denotes fo _ ⟨0, 2, .numberPrefix⟩ ⟨2, 2 + byteLen sp, ty⟩ ts0 ['#', radixLetter r] sp r
+    rfl h0 (prefixStep_radixLetter hr .unspecified 10) hty h1 hr.bounds).1, hpw]
+
+/-- T16.3 for finite doubles (radix 10, prefix `#d`), under the float-text hypotheses and the lexical
+    shape of the printed double (a sign or digit, then digits, `.`, `e`, `-`: one `Number` token) -/
+theorem literal_float (fo : FloatOps) (ht : FloatText fo) (f : F64) (hf : f.isFinite = true)
+    (hshape : NumberShape (numberToString fo 10 (.flo f))) :
+    parseText fo ('#' :: 'd' :: numberToString fo 10 (.flo f)) = .ok (.num (.flo f), none) ∧
+    stringToNumberProc fo [.str (numberToString fo 10 (.flo f)), .num (.fix 10)] = .ok (.num (.flo f)) := by
+  have hr : Radix 10 := .inr (.inr (.inl rfl))
+  have hpw : parseWithExactness fo (numberToString fo 10 (.flo f)) .unspecified 10 = .ok (.flo f) := by
+    unfold parseWithExactness
+    rw [float_roundtrip fo ht f hf]
+  obtain ⟨h1, h2⟩ := parseText_prefixed fo hr (.inl (scansAs_numberShape hshape [] trivial))
+  rw [hpw] at h1 h2
+  exact ⟨h1, h2⟩
+
+
 /-! ### the pinned printers were not inverse (kept as a proved counterexample) -/
 
 /-- before the repair a negative fixnum printed in radix 2..36 as the digits of `n + 2^64`, which
@@ -331,6 +457,17 @@ example : parseNumber noFloats 8 (numberToString noFloats 8 (.big 7)) = .ok (.fi
 example : (parseNumber noFloats 2 (printFixRadixPinned 2 (-5))) = .ok (.big 18446744073709551611) :=
   (pinned_twos_complement_not_inverse noFloats (-5) (by decide) (by decide) 2 (by decide) (by decide)).1
 
+-- T16.3: the hypotheses are satisfiable (`#x-ff`; `#xff`, whose body is a `Symbol` token; `#b-101/11`;
+-- `#o7` from the bignum representation of 7). The spellings are not evaluated here: `natDigits` is
+-- defined by well-founded recursion and does not reduce in the kernel.
+example := literal_exact noFloats (.fix (-255)) (by decide) rfl 16 (.inr (.inr (.inr rfl)))
+example := literal_exact noFloats (.fix 255) (by decide) rfl 16 (.inr (.inr (.inr rfl)))
+example := literal_exact noFloats (.rat (-5) 3) (by decide) rfl 2 (.inl rfl)
+example := literal_exact noFloats (.big 7) (by decide) rfl 8 (.inr (.inl rfl))
+-- `(… #x-ff)`: the literal followed by a closing parenthesis
+example := literal_exact_in_context noFloats (.fix (-255)) (by decide) rfl 16 (.inr (.inr (.inr rfl)))
+  [')'] (.inr rfl) _ (ScanTo.tok (scansAs_rparen []) (ScanTo.nil _))
+
 /-- a toy float text satisfying `FloatText`: a double is printed as `.` followed by the decimal
     digits of its bit pattern -/
 def toyFloats : FloatOps where
@@ -365,5 +502,54 @@ example : FloatText toyFloats where
     · decide
     · obtain ⟨d, hd, rfl⟩ := natDigits_chars (by omega) _ c hc
       exact (digitChar_plain d (by omega)).2.2.2.1
+
+/-- a second toy float text, `0.` followed by the decimal digits of the bit pattern, which also has
+    the lexical shape `literal_float` asks for (`FloatText` and `NumberShape` are jointly satisfiable) -/
+def toyFloats2 : FloatOps where
+  parseF64 _ s := match s with
+    | '0' :: '.' :: ds => (parseNat 10 ds).map fun b => ⟨b⟩
+    | _ => none
+  bigRatToF64 _ _ := ⟨0⟩
+  toExact _ := none
+  toInexact _ := ⟨0⟩
+  fmtExp f := '0' :: '.' :: natDigits 10 f.bits
+  fmtFix1 f := '0' :: '.' :: natDigits 10 f.bits
+  fmtShort f := '0' :: '.' :: natDigits 10 f.bits
+  fmtRadix _ _ := []
+
+theorem toy2_print (f : F64) : printNumber toyFloats2 (.flo f) = '0' :: '.' :: natDigits 10 f.bits := by
+  show (if f.gt1e10 then _ else if f.isInteger then _ else _) = _
+  split
+  · rfl
+  · split <;> rfl
+
+theorem toy2_floatText : FloatText toyFloats2 where
+  parse_print f _ := by
+    rw [toy2_print]
+    show (parseNat 10 (natDigits 10 f.bits)).map (fun b => (⟨b⟩ : F64)) = some f
+    rw [parseNat_natDigits (by omega) (by omega)]
+    rfl
+  has_mark f _ := by rw [toy2_print]; exact .inl (by simp)
+  no_slash f _ := by
+    rw [toy2_print]
+    intro c hc
+    rcases List.mem_cons.mp hc with rfl | hc
+    · decide
+    rcases List.mem_cons.mp hc with rfl | hc
+    · decide
+    · obtain ⟨d, hd, rfl⟩ := natDigits_chars (by omega) _ c hc
+      exact (digitChar_plain d (by omega)).2.2.2.1
+
+theorem toy2_shape (f : F64) : NumberShape (numberToString toyFloats2 10 (.flo f)) := by
+  have e : numberToString toyFloats2 10 (.flo f) = printNumber toyFloats2 (.flo f) := by
+    simp [numberToString]
+  rw [e, toy2_print]
+  refine ⟨'0', _, rfl, by decide, ?_⟩
+  intro x hx
+  rcases List.mem_cons.mp hx with rfl | hx
+  · decide
+  · exact natDigits10_subsequent _ x hx
+
+example := literal_float toyFloats2 toy2_floatText ⟨0x3FE0000000000000⟩ (by decide) (toy2_shape _)
 
 end Marwood.Proofs.C16
